@@ -9,6 +9,7 @@ import (
 
 	"github.com/hashicorp/hcl-lang/schema"
 	"github.com/hashicorp/hcl/v2/hclsyntax"
+	"github.com/zclconf/go-cty/cty"
 )
 
 func init() { props["C03"] = runC03; props["C04"] = runC04 }
@@ -30,7 +31,35 @@ func rebuildScenarios(seed int64, bi int, o Omni) []*Scenario {
 		ts, _ := tfScenario(r)
 		scs = append(scs, ts)
 	}
+	// attributes whose value is still missing: the parser's placeholder expression of one reaches the name
+	// of the next (deterministic texts, every offset queried)
+	scs = append(scs, missingValuesScenario(bi))
 	return scs
+}
+
+func missingValuesScenario(bi int) *Scenario {
+	attr := func(t cty.Type) *schema.AttributeSchema {
+		return &schema.AttributeSchema{IsOptional: true, Constraint: schema.LiteralType{Type: t}}
+	}
+	body := &schema.BodySchema{Attributes: map[string]*schema.AttributeSchema{
+		"a": attr(cty.Bool), "b": attr(cty.Bool), "c": attr(cty.Bool), "d": attr(cty.String), "e": attr(cty.Number)}}
+	sch := &schema.BodySchema{Attributes: body.Attributes, Blocks: map[string]*schema.BlockSchema{"blk": {Body: body}}}
+	texts := []string{
+		"a =\nb =\n",
+		"a =\nb =\nc =\nd =\ne =\n",
+		"a = \nb = true\nc =\n",
+		"blk {\n  a =\n  b =\n  c =\n}\n",
+		"e =\nd =\nblk {\n  d =\n  e =\n}\na =\n",
+		"a =\r\nb =\r\nc = \r\n",
+	}
+	src := texts[bi%len(texts)]
+	w := newWorld()
+	pd := w.AddPath("root", sch, map[string]string{"main.tf": src}, nil)
+	s := &Scenario{W: w, Main: pd, File: "main.tf", Src: []byte(src), Kind: "missing-values"}
+	for off := 0; off <= len(src); off++ {
+		s.Offsets = append(s.Offsets, off)
+	}
+	return s
 }
 
 func firstDiff(a, b string) string {
@@ -132,7 +161,7 @@ func runC03(run *Run, replay string) {
 			}
 			r := rand.New(rand.NewSource(subSeed(run.Res.Seed, bi*1000+si)))
 			tbl := lcTable(s.Src)
-			for _, off := range cursorOffsets(r, s.Src, o.AllPos, o.PosSample) {
+			for _, off := range append(cursorOffsets(r, s.Src, o.AllPos, o.PosSample), s.Offsets...) {
 				pos, ok := tbl[off]
 				if !ok {
 					continue
